@@ -1722,8 +1722,13 @@ hdf_read_vars(XDR *xdrs, NC *handle, int32 vg)
                 }
 
                 /* Read in the attributes if any */
-                if ((nattrs = hdf_num_attrs(handle, var)) > 0)
+                if ((nattrs = hdf_num_attrs(handle, var)) == FAIL)
+                    HGOTO_FAIL(FAIL);
+                if (nattrs > 0) {
                     vp->attrs = hdf_read_attrs(xdrs, handle, var);
+                    if (vp->attrs == NULL) /* there are attributes, but they could not be read */
+                        HGOTO_FAIL(FAIL);
+                }
                 else
                     vp->attrs = NULL;
 
@@ -1849,8 +1854,13 @@ hdf_read_xdr_cdf(XDR *xdrs, NC **handlep)
         HGOTO_FAIL(FAIL);
 
     /* read in attributes */
-    if (hdf_num_attrs((*handlep), cdf_vg) > 0)
+    if ((status = hdf_num_attrs((*handlep), cdf_vg)) == FAIL)
+        HGOTO_FAIL(FAIL);
+    if (status > 0) {
         (*handlep)->attrs = hdf_read_attrs(xdrs, (*handlep), cdf_vg);
+        if ((*handlep)->attrs == NULL) /* there are attributes, but they could not be read */
+            HGOTO_FAIL(FAIL);
+    }
     else
         (*handlep)->attrs = NULL;
 
